@@ -153,9 +153,20 @@ impl TimeDelta {
                 tensure!(!unit.is_empty(), ParseError:"expected a unit in the duration string");
 
                 match unit.as_str() {
-                    "ns" => nsecs = add(nsecs, n, 1, duration)?,
-                    "us" => nsecs = add(nsecs, n, NANOS_PER_MICRO, duration)?,
-                    "ms" => nsecs = add(nsecs, n, NANOS_PER_MILLI, duration)?,
+                    // whole seconds go to `secs` so that a large sub-second count does not
+                    // overflow the nanosecond accumulator
+                    "ns" => {
+                        secs = add(secs, n / NANOS_PER_SEC, 1, duration)?;
+                        nsecs = add(nsecs, n % NANOS_PER_SEC, 1, duration)?
+                    },
+                    "us" => {
+                        secs = add(secs, n / MICROS_PER_SEC, 1, duration)?;
+                        nsecs = add(nsecs, n % MICROS_PER_SEC, NANOS_PER_MICRO, duration)?
+                    },
+                    "ms" => {
+                        secs = add(secs, n / MILLIS_PER_SEC, 1, duration)?;
+                        nsecs = add(nsecs, n % MILLIS_PER_SEC, NANOS_PER_MILLI, duration)?
+                    },
                     "s" => secs = add(secs, n, 1, duration)?,
                     "m" => secs = add(secs, n, SECS_PER_MINUTE, duration)?,
                     "h" => secs = add(secs, n, SECS_PER_HOUR, duration)?,
